@@ -234,10 +234,12 @@ Definition rangeZ (n:Z) : list Z := map Z.of_nat (seq 0 (Z.to_nat n)).
 (* an entry the loop never filled stays None: encoded as the impossible byte string [-1] *)
 Definition NONE_ENTRY : list Z := [-1].
 
-(* data[start:stop]: ro = ReadOnlyIndexedFieldArray (490-510, repaired), else Writeable (597-615) *)
-Definition iw_getslice (ro:bool) (ind vals:list Z) (start stop:Z) : res (list (list Z)) :=
+(* data[start:stop]: ro = ReadOnlyIndexedFieldArray (490-510), else Writeable (597-615).
+   guard = the `if len(index) == 0: return []` test: always present in the Writeable class,
+   present in the ReadOnly class only after fix-F-C01d. *)
+Definition iw_getslice_gen (guard ro:bool) (ind vals:list Z) (start stop:Z) : res (list (list Z)) :=
   let index := np_slice ind start (stop + 1) in
-  if len index =? 0 then Ok []
+  if guard && (len index =? 0) then Ok []
   else
     do i0 <- np_index 10 index 0;
     do il <- np_index 11 index (-1);
@@ -250,6 +252,11 @@ Definition iw_getslice (ro:bool) (ind vals:list Z) (start stop:Z) : res (list (l
                 do b <- get 14 index (ir + 1);
                 Ok (np_slice bytestr (a - startindex) (b - startindex))) (rangeZ rmax);
     Ok (rs ++ repeat NONE_ENTRY (Z.to_nat (nres - Z.max 0 rmax))).
+
+(* the repaired tree *)
+Definition iw_getslice (ro:bool) := iw_getslice_gen true ro.
+(* the pinned tree *)
+Definition iw_getslice_orig (ro:bool) := iw_getslice_gen (negb ro) ro.
 
 (* data[item] (both classes: 511-518 / 616-623) *)
 Definition iw_getint (ind vals:list Z) (item:Z) : res (list Z) :=
